@@ -1,6 +1,7 @@
 import Driver.Util
 import NutsModel.C20.Strict
 import NutsModel.C20.Outbound
+import NutsModel.C20.Sources
 import NutsModel.Facts.C20
 open Lean Nuts.Drv Nuts.C18 Nuts.C20 Nuts
 
@@ -72,6 +73,64 @@ def showOutcome (op : String) (matrix : Bool) (cfg : Config) : Outcome → Strin
     let mx := if matrix then " iammatrix=" ++ iamMatrix cfg else ""
     s!"{op} ok dummy={d} remotectx={c} clientstrict={r.clientStrict} earlyclient={e} iamhttp={h} iamip={i} iamsites=same iamvc={vc}{mx}"
 
+/-! sources (deepening round): rules and orders from the regenerated facts -/
+def rules : EnvRules :=
+  { pre := Nuts.Facts.C20.envPrefix, envDelim := Nuts.Facts.C20.envDelimiter.headD 0, delim := Nuts.Facts.C20.keyDelimiter.headD 0,
+    sep := Nuts.Facts.C20.listSeparator.headD 0, esc := Nuts.Facts.C20.listEscape.headD 0 }
+def sourceOrder : List Source := sourceOrderOf Nuts.Facts.C20.loadSourceOrder
+
+def envPairs (j : Json) : List (Bytes × Bytes) :=
+  (jArr j "env").filterMap fun p =>
+    match p.getArrVal? 0, p.getArrVal? 1 with
+    | .ok a, .ok b =>
+      match a.getStr?, b.getStr? with
+      | .ok x, .ok y => some (bytesOf x, bytesOf y)
+      | _, _ => none
+    | _, _ => none
+
+def stripQ (s : String) : String := ((s.drop 1).toString.dropEnd 1).toString
+
+def srcOp (j : Json) : String :=
+  let key := jStr j "key"
+  let cli := jStr j "cli"
+  let cliV : Option String := if cli == "" then none else
+    match cli.splitOn "=" with
+    | [_] => some "true"
+    | _ :: v => some (String.intercalate "=" v)
+    | [] => none
+  let fileV : Option String := if jHas j "fileval" then some (jStr j "fileval") else none
+  let mk : (fromFile : Bool) → String → Raw := fun fromFile v =>
+    match key with
+    | "strictmode" => .b (v == "true")
+    | "url" => .s (bytesOf (if fromFile then stripQ v else v))
+    | _ => .l (((if fromFile then stripQ v else v).splitOn ",").map fun x => bytesOf x.trimAscii.toString)
+  let src : Sources := { file := fileV.map (mk true), env := envPairs j, cli := cliV.map (mk false) }
+  let raw := resolveRaw rules sourceOrder (bytesOf key) src
+  match key with
+  | "strictmode" =>
+    match (match raw with | none => Res.ok Nuts.Facts.C20.defaultStrictmode | some r => toBool r) with
+    | .ok b =>
+      let tail :=
+        if jBool j "configure" then
+          let cfg : Config := { strict := b, url := bytesOf "http://nuts.nl", tls := true, nuts := true, web := true, cryptoStorage := .explicit, sqlExplicit := true, dummy := false, irmaPbdf := true, movedKey := false }
+          match start tlds l2s cfg with
+          | .refuse e r => s!" start=refuse:{e}:{r}"
+          | .ok _ => " start=ok"
+        else ""
+      s!"src strictmode={b}{tail}"
+    | .err e => "src refuse:" ++ e
+    | .panic p => "src panic:" ++ p
+  | "url" =>
+    match (match raw with | none => Res.ok [] | some r => toStr r) with
+    | .ok v => "src url=" ++ hx v
+    | .err e => "src refuse:" ++ e
+    | .panic p => "src panic:" ++ p
+  | _ =>
+    match (match raw with | none => Res.err "no-source" | some r => toList r) with
+    | .ok vs => "src didmethods=[" ++ String.intercalate "|" (vs.map hx) ++ "]"
+    | .err e => "src refuse:" ++ e
+    | .panic p => "src panic:" ++ p
+
 def step (st : Unit) (j : Json) : Unit × List String :=
   let line : String :=
     match jStr j "op" with
@@ -118,6 +177,7 @@ def step (st : Unit) (j : Json) : Unit × List String :=
         let rs := reqs.map fun r => s!"{ascii r.scheme}://{ascii r.host}"
         s!"do reqs=[{String.intercalate "," rs}] out={o}"
       | _ => "do bad-request"
+    | "src" => srcOp j
     | "cap" =>
       -- byte-level Do: cap / reader limit / comparison are the REGENERATED definitions
       let locs := (jStrs j "locs").toArray
